@@ -11,7 +11,8 @@ from .sorts import (VInt, VBool, VU, VNone, VOpt, VSlice, VTuple, VList, VRec, V
 from .engine import ForkReq
 from .menv import ModuleEnv
 
-ARR_FIELDS = dict(ndim='int', rows='int', cols='int', dtype='dtype', writeable='bool', fresh='bool')
+# src/off: ghost identity of the underlying buffer and the column offset of a view into it
+ARR_FIELDS = dict(ndim='int', rows='int', cols='int', dtype='dtype', writeable='bool', fresh='bool', src='int', off='int')
 
 # dtype kind codes (np.dtype.kind) as small ints
 KINDS = {'b': 0, 'i': 1, 'u': 2, 'f': 3, 'c': 4, 'U': 5, 'S': 6, 'M': 7, 'm': 8, 'O': 9, 'V': 10}
@@ -120,6 +121,38 @@ class NpModuleEnv(ModuleEnv):
             if attr == 'type':
                 return VConst(('dtype_type', base.t))
         return super().attr_model(base, attr, eng, st)
+
+    def getitem_model(self, base, idx, eng, st, node):
+        """basic indexing of a 2-D array by (row-slice, column slice | column int): a view (ASSUMED numpy contract
+        'basic-indexing-view': same buffer, same writeable flag, columns = the selected range)"""
+        if isinstance(base, VRec) and base.name == 'arr' and isinstance(idx, VTuple) and len(idx.items) == 2:
+            rk, ck = idx.items
+            f = base.fields
+            if not st.spec:
+                eng.oblige(st, f['ndim'].t == 2, f'no-IndexError-2d-index-on-1d@L{node.lineno}', 'safety', node)
+            if not (isinstance(rk, VSlice) and all(isinstance(p, VNone) for p in (rk.start, rk.stop, rk.step))):
+                return None
+            from .menv import slice_norm
+            nf = dict(f)
+            if isinstance(ck, VSlice):
+                a, b, c = slice_norm(ck, f['cols'].t)
+                cs = z3.simplify(c)
+                if not (z3.is_int_value(cs) and cs.as_long() == 1):
+                    return None
+                nf['cols'] = VInt(z3.If(b > a, b - a, 0))
+                nf['off'] = VInt(f['off'].t + a)
+                eng.assumed_used.add('basic-indexing-view')
+                return VRec('arr', nf, base.fsorts)
+            if isinstance(ck, VInt):
+                k = z3.If(ck.t < 0, ck.t + f['cols'].t, ck.t)
+                if not st.spec:
+                    eng.oblige(st, z3.And(k >= 0, k < f['cols'].t), f'no-IndexError@L{node.lineno}', 'safety', node)
+                nf['ndim'] = VInt(1)
+                nf['cols'] = VInt(1)
+                nf['off'] = VInt(f['off'].t + k)
+                eng.assumed_used.add('basic-indexing-view')
+                return VRec('arr', nf, base.fsorts)
+        return None
 
     def identical_model(self, a, b):
         for x, y in ((a, b), (b, a)):
